@@ -7,7 +7,9 @@ observation itself is echoed because how far the downloader has read when the cu
 * the results arrive for consecutive pieces starting at `begin`, every buffer holds the true bytes of its piece;
 * exactly the last result carries `Done`, nothing arrives after it, and the downloader can be closed then;
 * no buffer is handed out twice (a buffer belongs to the receiver of the result it arrived in);
-* the last piece delivered is not beyond the original end.
+* the last piece delivered is not beyond the original end;
+* after the range was cut, no piece at or beyond the new end is delivered (C09: such a piece belongs to whoever the
+  picker gave the cut-off part to), except the one piece the downloader was already committed to.
 -/
 namespace Driver.Suites.WsRange
 open Driver
@@ -33,7 +35,23 @@ def step (op implObs : String) : String × List String × List String :=
     (if kvStr it "cutclose" ≠ "1" && (dones.length ≠ 1 || !lastDone) then [s!"C10 webseed-range-done-flag res={kvStr it "res"}"] else []) ++
     (if kvStr it "cutclose" = "1" && dones.length > 1 then [s!"C10 webseed-range-done-flag res={kvStr it "res"}"] else []) ++
     (if kvStr it "end" ≠ "closed" then ["C10 webseed-downloader-does-not-finish"] else []) ++
-    (if idx.any (· ≥ e) then ["C01 webseed-piece-beyond-range"] else [])
+    (if idx.any (· ≥ e) then ["C01 webseed-piece-beyond-range"] else []) ++
+    -- C09 (web seed ranges never overlap) / C10: once the end of the range has been moved to `cut` (after the
+    -- `after`-th result was taken; before `Run` when `after = 0`), the downloader delivers no piece at or beyond
+    -- `cut` — except piece `cut` itself when the downloader was already committed to it (see `committed`)
+    (let after := kvNat toks "after"
+     let cut := kvNat toks "cut"
+     let atCut := if after = 0 then none else idx[after - 1]?
+     let later := idx.drop after
+     -- (the `done` flag of a piece is computed before its result is handed over: when the cut is announced the
+     -- downloader may already have decided that piece `atCut + 1` is not its last one; so piece `cut` can still
+     -- follow when `atCut + 1 ≥ cut - 1`; never a piece beyond `cut`, and none at all at `cut` when `after = 0`)
+     let committed := match atCut with | some a => a + 2 ≥ cut | none => false
+     let beyond := later.filter fun i => i > cut ∨ (i = cut ∧ !committed)
+     if kvStr toks "after" ≠ "" ∧ !beyond.isEmpty ∧ idx.all (· < 1000000) then
+       [s!"C09 webseed-delivers-pieces-beyond-its-cut-range cut={cut} res={kvStr it "res"}",
+        s!"C10 webseed-delivers-pieces-beyond-its-cut-range cut={cut} res={kvStr it "res"}",
+        s!"C01 webseed-delivers-pieces-beyond-its-cut-range cut={cut} res={kvStr it "res"}"] else [])
   let tags := (if kvNat toks "cut" < e then ["branch:cut", "nontrivial"] else []) ++
     (if (commaList (kvStr toks "files")).length ≥ 2 then ["branch:multi-file"] else []) ++
     (if (commaList (kvStr toks "files")).any (·.endsWith ":1") then ["branch:padding"] else [])
